@@ -7,6 +7,7 @@ pub mod c04;
 pub mod c05;
 pub mod c06;
 pub mod c08;
+pub mod c09;
 pub mod c17;
 pub mod c18;
 pub mod c27;
@@ -26,6 +27,7 @@ pub const REGISTRY: &[Entry] = &[
     Entry { id: "C05", level: "exploration", run: c05::run },
     Entry { id: "C06", level: "exploration", run: c06::run },
     Entry { id: "C08", level: "fault_enumeration", run: c08::run },
+    Entry { id: "C09", level: "exploration", run: c09::run },
     Entry { id: "C17", level: "fault_enumeration", run: c17::run },
     Entry { id: "C18", level: "exploration", run: c18::run },
     Entry { id: "C27", level: "exploration", run: c27::run },
